@@ -91,7 +91,7 @@ JoinT(kind, L, R, i, j, both, nl, nr, unitOf) ==
 (* ---- the query shapes ----------------------------------------------------------- *)
 Kinds == {"inner", "left", "right", "full"}
 Shapes == { [s |-> "map"], [s |-> "filter"], [s |-> "reduce"], [s |-> "union"] }
-          \cup { [s |-> sh, kind |-> k] : sh \in {"orders_pub", "pub_orders", "orders_users", "reduce_pub"}, k \in Kinds }
+          \cup { [s |-> sh, kind |-> k] : sh \in {"orders_pub", "pub_orders", "orders_users", "orders_users_k", "reduce_pub"}, k \in Kinds }
 PuDefs == {"direct", "path"}
 
 \* the tracked result of shape q on database d
@@ -104,6 +104,9 @@ Eval(q, pudef, d) ==
       [] q.s = "orders_pub"   -> JoinT(q.kind, O, Published(d), 2, 1, FALSE, 3, 2, "left")
       [] q.s = "pub_orders"   -> JoinT(q.kind, Published(d), O, 1, 2, FALSE, 2, 3, "right")
       [] q.s = "orders_users" -> JoinT(q.kind, O, TrackUsers(d), 1, 1, TRUE, 3, 2, "left")
+      \* two tracked relations joined on a column that is not the unit (orders.k = users.g): only the added
+      \* equality of the units keeps a row from carrying another unit's data
+      [] q.s = "orders_users_k" -> JoinT(q.kind, O, TrackUsers(d), 2, 2, TRUE, 3, 2, "left")
       [] q.s = "reduce_pub"   -> JoinT(q.kind, ReduceT(O, 2, 3), Published(d), 1, 1, FALSE, 2, 2, "left")
 
 (* ---- state machine: build a database, pick a shape ------------------------------- *)
@@ -136,7 +139,7 @@ Locality == \A u \in Units : BagEq(SelectSeq(Res, LAMBDA r : r.pu = u), Eval(q, 
 Safe(x) == x.s \in {"map", "filter", "reduce", "union"}
            \/ (x.s \in {"orders_pub", "reduce_pub"} /\ x.kind \in {"inner", "left"})
            \/ (x.s = "pub_orders" /\ x.kind \in {"inner", "right"})
-           \/ (x.s = "orders_users" /\ x.kind = "inner")
+           \/ (x.s \in {"orders_users", "orders_users_k"} /\ x.kind = "inner")
 \* the invariants TLC checks: on the shapes where the construction is expected to be sound
 SafeShapesSound == (Done /\ Safe(q)) => (PuNonNull /\ Locality)
 =============================================================================
